@@ -33,6 +33,7 @@
 //! ???
 
 mod business_knowledge_model;
+mod cycles;
 mod decision;
 mod decision_service;
 pub(crate) mod decision_table;
@@ -44,6 +45,7 @@ mod item_definition_type;
 
 use crate::errors::*;
 pub use business_knowledge_model::BusinessKnowledgeModelEvaluator;
+pub use cycles::check_cyclic_dependencies;
 pub use decision::DecisionEvaluator;
 pub use decision_service::DecisionServiceEvaluator;
 use dmntk_common::{DmntkError, Result};
